@@ -4,7 +4,7 @@
 
 /// everything the contract of v2::Header::try_from says about its result
 pub open spec fn v2_all_post(s: Seq<u8>, y: Result<V2Header, V2Error>) -> bool {
-    c02_post(s, y) && c05_v2_post(s, y) && c12_v2_post(s, y) && c17_post(s, y) && v2_func_post(s, y)
+    c02_post(s, y) && c05_v2_post(s, y) && c12_v2_post(s, y) && c17_post(s, y) && c17_controls_post(s, y) && v2_func_post(s, y)
 }
 /// everything the contract of v1::Header::try_from(&[u8]) says about its result
 pub open spec fn v1_bytes_post(b: Seq<u8>, x: Result<V1Header, V1BinError>) -> bool {
